@@ -142,12 +142,14 @@ def execute(h):
             violate('directory', 'not_in_own_type', step, symbol=sym,
                     type=mu['type'])
         try:
-            if cls.get_unit_by_symbol(sym) is not u:
-                violate('directory', 'get_unit_by_symbol_other', step,
-                        symbol=sym)
-        except ValueError:
+            same = cls.get_unit_by_symbol(sym) is u
+        except Exception:       # noqa
             violate('directory', 'get_unit_by_symbol_fails', step,
                     symbol=sym, type=mu['type'])
+        else:
+            if not same:
+                violate('directory', 'get_unit_by_symbol_other', step,
+                        symbol=sym)
         # ... and by no other type
         other = model.order[(step + len(sym)) % len(model.order)]
         if other != mu['type']:
@@ -157,7 +159,7 @@ def execute(h):
                         symbol=sym, type=mu['type'], other=other)
             try:
                 ocls.get_unit_by_symbol(sym)
-            except ValueError:
+            except Exception:       # noqa: any exception is "not found"
                 pass
             else:
                 violate('directory', 'found_in_other_type', step,
@@ -275,11 +277,8 @@ def execute(h):
         # an undeclared symbol is unknown
         try:
             Unit('no such unit')
-        except ValueError:
+        except Exception:       # noqa: any exception is "unknown"
             pass
-        except Exception as e:      # noqa
-            violate('directory', 'unknown_symbol_other_exception', step,
-                    observed=type(e).__name__)
         else:
             violate('directory', 'unknown_symbol_found', step)
         # the base type lists nothing and is nobody's type
